@@ -12,10 +12,18 @@ enum { M_F_PKISIG = 0, M_F_VERIFYSIG_STATIC = 1, M_F_VERIFYSIG_PUBLIC = 2, M_F_C
 static _Bool m_streq(const char *a, const char *b) { int i; for (i = 0; i < M_SL; i++) { if (a[i] != b[i]) return 0; if (a[i] == 0) return 1; } return 1; }
 
 static int m_scn_pki(int which) {
-	struct KSI_PKITruststore_st pki; struct KSI_PKISignature_st sig; PKCS7 p7; PKCS7_SIGNED sgn; KSI_CertConstraint cons[M_NC + 1];
+	struct KSI_PKITruststore_st pki; struct KSI_PKISignature_st sig; PKCS7 p7arr[2]; PKCS7_SIGNED sgn; KSI_CertConstraint cons[M_NC + 1];
 	static unsigned char data[4];
 	_Bool pkiNull = 0, ctxNull = 0, dataNull = 0, sigNull = 0, useCtx = 0, all = 1, argsOk, sigOK, chainOK, consOK, sigStepRan;
 	size_t data_len = 0; int n = 0, k, i, res;
+	/* CBMC 6.11 work-around: `signature->pkcs7->d.sign->cert` (pointer -> union member -> field) is mis-simplified to a read of
+	 * invalid_object when the PKCS7 object is a plain variable; as an array element with a symbolic index it is evaluated correctly */
+#ifdef NATIVE_REPLAY
+	int pi = 0;
+#else
+	int pi = nondet_bool() ? 1 : 0;
+#endif
+#define p7 (p7arr[pi])
 	KSI_CertConstraint *saved = m_ctx->certConstraints;
 
 	m_world_reset();
@@ -32,7 +40,7 @@ static int m_scn_pki(int which) {
 	}
 	cons[M_NC].oid = NULL; cons[M_NC].val = NULL;
 	memset(&p7, 0, sizeof(p7)); memset(&sgn, 0, sizeof(sgn));
-	sgn.cert = (STACK_OF(X509) *)m_p7certs_obj; p7.d.sign = m_p7_signed ? &sgn : NULL;
+	m_p7certs_p = (STACK_OF(X509) *)m_p7certs_obj; sgn.cert = m_p7certs_p; p7.d.sign = m_p7_signed ? &sgn : NULL;
 	sig.ctx = m_ctx; sig.pkcs7 = &p7; m_the_p7 = &p7;
 	pki.ctx = ctxNull ? NULL : m_ctx; pki.store = (X509_STORE *)m_store_obj;
 	m_ctx->certConstraints = useCtx ? cons : NULL;
@@ -44,6 +52,7 @@ static int m_scn_pki(int which) {
 		default: res = KSI_PKITruststore_verifySignatureCertificate(pkiNull ? NULL : &pki, sigNull ? NULL : &sig); break;
 	}
 	m_ctx->certConstraints = saved;
+#undef p7
 
 	for (k = 0; k < M_NC; k++) if (k < n && !(m_cert_has[k] && m_streq(m_cert_val[k], m_val[k]))) all = 0;
 	argsOk = !pkiNull && !ctxNull && !sigNull && !dataNull;
@@ -92,7 +101,6 @@ static int m_scn_pki(int which) {
 	M_CHECK(m_sctx_freed == m_sctx_made && m_sctx_made <= 1, "the store context is released exactly once");
 	M_CHECK(m_x509_live == 0 && m_stack_live == 0, "signer stack and certificate copies are released");
 	M_CHECK(m_oid_freed == m_oid_made, "every OID object is released");
-	M_REACH("returned"); if (res == KSI_OK) M_REACH("accepted"); if (res == KSI_INVALID_PKI_SIGNATURE) M_REACH("bad signature"); if (res == KSI_PKI_CERTIFICATE_NOT_TRUSTED) M_REACH("certificate not trusted");
 	return res;
 }
 
@@ -116,7 +124,6 @@ static int m_scn_raw(void) {
 	M_CHECK(IMPLIES(argsOk && sig_len < UINT_MAX && m_md_made == 1 && m_oid_made == 1 && m_md_kind == 6, res == KSI_UNAVAILABLE_HASH_ALGORITHM), "digest libksi does not know => KSI_UNAVAILABLE_HASH_ALGORITHM");
 	M_CHECK(IMPLIES(argsOk && sig_len < UINT_MAX && !m_env_failed && m_md_kind >= 1 && m_md_kind <= 5 && m_fin_ret == 1, res == KSI_OK), "everything positive => OK");
 	M_CHECK(m_md_freed == m_md_made && m_oid_freed == m_oid_made && m_pkey_freed == m_pkey_made, "digest context, OID object and public key are released exactly once");
-	M_REACH("returned"); if (res == KSI_OK) M_REACH("accepted"); if (res == KSI_INVALID_PKI_SIGNATURE) M_REACH("bad signature");
 	return res;
 }
 #endif
